@@ -1002,36 +1002,68 @@ class BlockLevel:
         loads, stores = _loads_stores(self.fn)
 
         def slot(nxt, x):
-            """where the only reader of x sits in the statement that follows its definition: (object, attribute or index)"""
-            if isinstance(nxt, ast.Return) and isinstance(nxt.value, ast.Name) and nxt.value.id == x:
-                return nxt, 'value'
-            if isinstance(nxt, ast.Raise) and isinstance(nxt.exc, ast.Call) and len(nxt.exc.args) == 1 and not nxt.exc.keywords and isinstance(nxt.exc.args[0], ast.Name) and nxt.exc.args[0].id == x:
-                return nxt.exc.args, 0
-            if isinstance(nxt, ast.Expr) and isinstance(nxt.value, ast.Call) and not nxt.value.keywords and _simple_arg(nxt.value.func):
-                # `msg = e; errors.append(msg)` / `logger.warning(msg)`: nothing is evaluated between the definition and the use
-                args = nxt.value.args
-                hits = [k for k, a in enumerate(args) if isinstance(a, ast.Name) and a.id == x]
-                if len(hits) == 1 and all(_simple_arg(a) for a in args[: hits[0]]) and sum(isinstance(m, ast.Name) and m.id == x for m in ast.walk(nxt)) == 1:
-                    return args, hits[0]
+            """where the only reader of x sits in the statement that follows its definition, provided nothing but plain names,
+            attributes and constants is evaluated between the definition and that reader: (object, attribute or index)"""
+            if sum(isinstance(m, ast.Name) and m.id == x and isinstance(m.ctx, ast.Load) for m in ast.walk(nxt)) != 1:
+                return None
+            if isinstance(nxt, (ast.Return, ast.Expr, ast.Assign)) and nxt.value is not None:
+                return _first_evaluated(nxt, 'value', x)
+            if isinstance(nxt, ast.Raise) and nxt.exc is not None and nxt.cause is None:
+                return _first_evaluated(nxt, 'exc', x)
+            if isinstance(nxt, ast.AugAssign) and _simple_arg(nxt.target):
+                return _first_evaluated(nxt, 'value', x)
+            if isinstance(nxt, ast.If):
+                return _first_evaluated(nxt, 'test', x)
+            if isinstance(nxt, ast.For):
+                return _first_evaluated(nxt, 'iter', x)
             return None
 
-        def pair(st, nxt):
+        # in a pattern a gap or a hole that follows may stand for further readers of the name: the general form is then left alone
+        # (the matcher bridges a temporary that only one side has); the forms return x / raise E(x) / call statement are always taken
+        order = {}
+        holes_at = []
+        if self.is_pattern:
+            for k, n_ in enumerate(_document_order(self.fn)):
+                order[id(n_)] = k
+                if isinstance(n_, ast.Name) and (n_.id == '___' or (n_.id.startswith('__') and n_.id[2:3].isupper())):
+                    holes_at.append(k)
+
+        def narrow(nxt, x):
+            if isinstance(nxt, ast.Return) and isinstance(nxt.value, ast.Name) and nxt.value.id == x:
+                return True
+            if isinstance(nxt, ast.Raise) and isinstance(nxt.exc, ast.Call) and len(nxt.exc.args) == 1 and not nxt.exc.keywords and isinstance(nxt.exc.args[0], ast.Name) and nxt.exc.args[0].id == x:
+                return True
+            if isinstance(nxt, ast.Expr) and isinstance(nxt.value, ast.Call) and not nxt.value.keywords and _simple_arg(nxt.value.func):
+                return any(isinstance(a, ast.Name) and a.id == x for a in nxt.value.args)
+            return False
+
+        def pair(st, nxt, protect=True):
             if not (isinstance(st, ast.Assign) and len(st.targets) == 1 and isinstance(st.targets[0], ast.Name)) or nxt is None:
                 return None
             x = st.targets[0].id
-            return x if slot(nxt, x) is not None else None
+            if slot(nxt, x) is None:
+                return None
+            if isinstance(st.value, ast.IfExp) and not isinstance(nxt, (ast.Return, ast.Raise)):
+                return None  # a conditional value is written as an if / else statement (expand_ifexp), not carried into its reader
+            if protect and self.is_pattern and not narrow(nxt, x):
+                head = nxt.test if isinstance(nxt, ast.If) else nxt.iter if isinstance(nxt, ast.For) else nxt
+                end = max((order.get(id(m), 0) for m in ast.walk(head) if not isinstance(m, (ast.expr_context, ast.operator, ast.boolop, ast.unaryop, ast.cmpop))), default=0)
+                if any(h > end for h in holes_at):
+                    return None
+            return x
 
         blocks = _blocks(self.fn)
         pairs: dict[str, int] = {}
         for n, field in blocks:
             v = getattr(n, field)
             for a, b in zip(v, v[1:]):
-                x = pair(a, b)
+                x = pair(a, b, protect=False)  # (every definition has its one reader next to it; which ones are taken is decided per pair)
                 if x:
                     pairs[x] = pairs.get(x, 0) + 1
         ok = {x for x, k in pairs.items() if stores.get(x) == k and loads.get(x) == k}
         if not ok:
             return False
+        changed = False
         for n, field in blocks:
             stmts = getattr(n, field)
             out = []
@@ -1048,11 +1080,118 @@ class BlockLevel:
                         obj[key] = st.value
                     out.append(nxt)
                     i += 2
+                    changed = True
                     continue
                 out.append(st)
                 i += 1
             setattr(n, field, out)
-        return True
+        return changed
+
+
+def _document_order(root):
+    """the nodes under root, depth first in source order"""
+    yield root
+    for ch in ast.iter_child_nodes(root):
+        yield from _document_order(ch)
+
+
+def _operands(e):
+    """(container, key) of the sub-expressions of e that are always evaluated, in evaluation order; None when e has parts that
+    are evaluated conditionally, repeatedly or later (those are listed in the second result)"""
+    if isinstance(e, ast.Attribute):
+        return [(e, 'value')], []
+    if isinstance(e, ast.Call):
+        ops = [(e, 'func')] + [((a, 'value') if isinstance(a, ast.Starred) else (e.args, i)) for i, a in enumerate(e.args)] + [(k, 'value') for k in e.keywords]
+        return ops, []
+    if isinstance(e, ast.BinOp):
+        return [(e, 'left'), (e, 'right')], []
+    if isinstance(e, ast.UnaryOp):
+        return [(e, 'operand')], []
+    if isinstance(e, ast.Compare):
+        return [(e, 'left'), (e.comparators, 0)], list(e.comparators[1:])
+    if isinstance(e, ast.Subscript):
+        return [(e, 'value'), (e, 'slice')], []
+    if isinstance(e, ast.Slice):
+        return [(e, f) for f in ('lower', 'upper', 'step') if getattr(e, f) is not None], []
+    if isinstance(e, (ast.Tuple, ast.List, ast.Set)):
+        return [((a, 'value') if isinstance(a, ast.Starred) else (e.elts, i)) for i, a in enumerate(e.elts)], []
+    if isinstance(e, ast.Dict):
+        ops = []
+        for i in range(len(e.keys)):
+            if e.keys[i] is not None:
+                ops.append((e.keys, i))
+            ops.append((e.values, i))
+        return ops, []
+    if isinstance(e, ast.JoinedStr):
+        return [(v, 'value') if isinstance(v, ast.FormattedValue) else (e.values, i) for i, v in enumerate(e.values)], [v.format_spec for v in e.values if isinstance(v, ast.FormattedValue) and v.format_spec is not None]
+    if isinstance(e, ast.IfExp):
+        return [(e, 'test')], [e.body, e.orelse]
+    if isinstance(e, ast.BoolOp):
+        return [(e.values, 0)], list(e.values[1:])
+    if isinstance(e, (ast.ListComp, ast.SetComp, ast.GeneratorExp, ast.DictComp)):
+        g0 = e.generators[0]
+        rest = [x for x in ([e.elt] if not isinstance(e, ast.DictComp) else [e.key, e.value])] + [g0.target] + list(g0.ifs) + [y for g in e.generators[1:] for y in [g.target, g.iter] + list(g.ifs)]
+        return ([(g0, 'iter')] if not isinstance(e, ast.GeneratorExp) else []), rest + ([g0.iter] if isinstance(e, ast.GeneratorExp) else [])
+    return None, [e]
+
+
+def _first_evaluated(owner, key, x: str):
+    """(container, key) of the Name x inside owner.<key> when every operand evaluated before it is a plain name / attribute /
+    constant and x is evaluated exactly once and unconditionally; else None"""
+    def get(c, k):
+        return getattr(c, k) if isinstance(k, str) else c[k]
+
+    def has_x(n):
+        return any(isinstance(m, ast.Name) and m.id == x for m in ast.walk(n))
+
+    def go(c, k):
+        e = get(c, k)
+        if isinstance(e, ast.Name) and e.id == x:
+            return (c, k)
+        if isinstance(e, (ast.Name, ast.Constant)):
+            return 'simple'
+        ops, later = _operands(e)
+        if ops is None:
+            return None
+        for c2, k2 in ops:
+            r = go(c2, k2)
+            if r == 'simple':
+                continue
+            if r == 'pure':
+                continue
+            return r  # found, or blocked (None)
+        if any(has_x(n) for n in later if n is not None):
+            return None
+        if later:
+            return 'complex'
+        # all operands are plain and x is not among them: an attribute / subscript chain of plain things is itself plain
+        return 'simple' if isinstance(e, (ast.Attribute, ast.Subscript, ast.Slice)) else 'complex'
+
+    def top(c, k):
+        r = go(c, k)
+        return r if isinstance(r, tuple) else None
+
+    # a non-plain operand without x blocks everything after it
+    def go_guarded(c, k):
+        e = get(c, k)
+        if isinstance(e, ast.Name) and e.id == x:
+            return (c, k)
+        if not has_x(e):
+            return 'simple' if _simple_arg(e) else 'complex'
+        ops, later = _operands(e)
+        if ops is None:
+            return None
+        for c2, k2 in ops:
+            r = go_guarded(c2, k2)
+            if r == 'simple':
+                continue
+            if r == 'complex':
+                return None  # something was computed before x is reached
+            return r
+        return None
+
+    r = go_guarded(owner, key)
+    return r if isinstance(r, tuple) else None
 
 
 # --------------------------------------------------------------------------- helper inlining
@@ -1347,12 +1486,25 @@ def _functions(tree: ast.AST):
 
 def normalise_module(tree: ast.Module, path: str) -> ast.Module:
     tree = NodeLevel(path).visit(tree)
-    # innermost functions first; helpers are normalised before they are expanded into their callers, callers again afterwards
+    # helpers that the reference tree does not have are normalised first (several returns become one result), then expanded into
+    # callers that still have their statements as written (a call that is a statement of its own is the easy case), then
+    # everything is normalised, innermost functions first
+    inv = inventory()
+    if inv is not None:
+        new = [f for f in tree.body if isinstance(f, ast.FunctionDef) and f'{path}::{f.name}' not in inv]
+        new += [f for c in tree.body if isinstance(c, ast.ClassDef) for f in c.body if isinstance(f, ast.FunctionDef) and f'{path}::{c.name}.{f.name}' not in inv]
+        for h in new:
+            for fn in reversed([h] + [n for n in ast.walk(h) if isinstance(n, ast.FunctionDef) and n is not h]):
+                BlockLevel(fn).run()
+        inline_unknown_helpers(tree, path)
+        if any(getattr(fn, '_verif_expanded', 0) for fn in _functions(tree)):
+            tree = _FoldStrings().visit(tree)  # (a constant argument of a helper may now stand in a formatted string)
     for fn in reversed(list(_functions(tree))):
         BlockLevel(fn).run()
-    inline_unknown_helpers(tree, path)
-    if any(getattr(fn, '_verif_expanded', 0) for fn in _functions(tree)):
-        tree = _FoldStrings().visit(tree)  # (a constant argument of a helper may now stand in a formatted string)
+    if inv is not None and any(getattr(fn, '_verif_expanded', 0) for fn in _functions(tree)):
+        # (a call that only became a statement of its own through the normal form)
+        inline_unknown_helpers(tree, path)
+        tree = _FoldStrings().visit(tree)
         for fn in reversed(list(_functions(tree))):
             BlockLevel(fn).run()
     ast.fix_missing_locations(tree)
